@@ -271,7 +271,8 @@ pub fn run(args: &Args) {
         tuples.extend(next.clone());
         level = next;
     }
-    let srcs = ["s", "deep/er/s", "w+s/u@h,x=y;z", "via-link/inner"];
+    // the fifth: every component looks like a file name with an extension
+    let srcs = ["s", "deep/er/s", "w+s/u@h,x=y;z", "via-link/inner", "releases.d/meta.v1.2"];
     for t in &tuples {
         for map in 0..4u8 {
             for (i, src) in srcs.iter().enumerate() {
@@ -342,7 +343,7 @@ pub fn run(args: &Args) {
     rep.cov("repackaging_pairs", pairs);
     rep.cov("dependency_tuples", tuples.len() as u64);
     rep.cov("distinct_outcomes", json!(outcomes));
-    rep.cov("rule", "package.toml documents built from all ordered dependency tuples (repetition allowed) over 8 URI kinds (incl. a file: URI, copied verbatim) x id->path maps {complete, missing x/y, missing z, empty; where an id is missing, ids differing from it only in letter case are present} x 4 source locations (one with the URI-safe sub-delimiters + @ , = ;, one reached through a symbolic link), libcnb: references with an invalid or reserved id x platform x 7 buildpack uris (., ./, relative, parent-relative, absolute, docker, urn), plus every ordered pair of 18 descriptors packaged one after the other into the same destination (the second result must be what a fresh destination gives), plus every relative path of <= k segments over {a, ., .., empty} with/without leading ./ and trailing /, run through the real package_composite_buildpack; the written file is re-read generically and compared with the reference (lexical normalisation). non-trivial = at least one dependency");
+    rep.cov("rule", "package.toml documents built from all ordered dependency tuples (repetition allowed) over 8 URI kinds (incl. a file: URI, copied verbatim) x id->path maps {complete, missing x/y, missing z, empty; where an id is missing, ids differing from it only in letter case are present} x 5 source locations (one whose components carry extensions, one with the URI-safe sub-delimiters + @ , = ;, one reached through a symbolic link), libcnb: references with an invalid or reserved id x platform x 7 buildpack uris (., ./, relative, parent-relative, absolute, docker, urn), plus every ordered pair of 18 descriptors packaged one after the other into the same destination (the second result must be what a fresh destination gives), plus every relative path of <= k segments over {a, ., .., empty} with/without leading ./ and trailing /, run through the real package_composite_buildpack; the written file is re-read generically and compared with the reference (lexical normalisation). non-trivial = at least one dependency");
     rep.cov("bound", json!({"max_tuple_len": max_len, "max_segments": max_segs}));
     rep.cov("exhaustive", true);
     rep.sample(json!(cases[cases.len() / 3]));
